@@ -140,6 +140,7 @@ def build(run, prop=ID):
     build_ready_and_power_cmds(run, prop, E)
     build_init(run, prop, E)
     build_wiring(run, prop, E)
+    build_trx_list(run, prop, E)
     build_pwr_lemma(run, prop)
     note_engine(run, E)
     run.assume("CLCKGen.start()/stop() start/join the worker thread (threading assumed); the worker stays alive until stopped")
@@ -450,6 +451,99 @@ def build_wiring(run, prop, E):
 
 
 # ------------------------------------------------------------------ PWR lemma
+
+def build_trx_list(run, prop, E):
+    """TRXList.find_trx / add_trx over a list of symbolic length (loop invariant: no earlier element matches)."""
+    tl = toolkit("trx_list")
+    ft = toolkit("fake_trx")
+    ff, fa = raw(tl.TRXList, "find_trx"), raw(tl.TRXList, "add_trx")
+    register_fn(run, ff)
+    register_fn(run, fa)
+    IDS, N = z3.Array("tl.ids", I, I), z3.Int("tl.len")
+    ADDR, PORT, IDX = z3.Array("remote_addr", I, I), z3.Array("base_port", I, I), z3.Array("child_idx", I, I)
+    a, p_, c = z3.Int("q.addr"), z3.Int("q.port"), z3.Int("q.idx")
+    sch = {"remote_addr": "int", "base_port": "int", "child_idx": "int"}
+
+    def match(j):
+        i = z3.Select(IDS, j)
+        return z3.And(z3.Select(ADDR, i) == a, z3.Select(PORT, i) == p_, z3.Select(IDX, i) == c)
+
+    def havoc(E, fr, i):
+        fr.locals.pop("trx", None)
+
+    def inv(E, fr, i):
+        j = z3.Int("j")
+        return z3.ForAll([j], z3.Implies(z3.And(j >= 0, j < i), z3.Not(match(j))))
+    E.loop_specs = {("trx_list.TRXList.find_trx", 1): LoopSpec("find_loop", havoc, inv)}
+    E.summaries = {"transceiver.Transceiver.__str__": str_summary}
+
+    def mk_list(E):
+        E.assume(N >= 0)
+        E.sheap.update({"remote_addr": ADDR, "base_port": PORT, "child_idx": IDX})
+        return models.obj_seq(IDS, N, lambda idt: SRef(ft.FakeTRX, idt, sch), lambda v: v.idt if isinstance(v, SRef) else z3.IntVal(-v.oid))
+
+    def setup(E):
+        lst = mk_list(E)
+        return {"self": SObj(tl.TRXList, {"trx_list": lst}), "lst": lst}
+    j = z3.Int("j")
+    none_matches = z3.ForAll([j], z3.Implies(z3.And(j >= 0, j < N), z3.Not(match(j))))
+    for p, ctx, out in run_paths(E, setup, lambda E, ctx: E.call(ff, [ctx["self"], SInt(a), SInt(p_), SInt(c)])):
+        tag = {"what": "find_trx"}
+        run.add(*path_obligations(run, prop, ff, p, "", tag=tag))
+        if out[0] == "cut":
+            continue
+        if out[0] == "raise":
+            run.add(Obligation(prop, qualname(ff), "never_raises", p.pc, z3.BoolVal(False), kind="noexc", case=out[1].cls.__name__, where=where(ff), tag=tag))
+            continue
+        r = out[1]
+        if r is None:
+            run.add(Obligation(prop, qualname(ff), "None_iff_no_element_matches", p.pc, none_matches, kind="post", where=where(ff), tag=tag))
+        elif isinstance(r, SRef):
+            i = z3.Int("i!0")
+            run.add(Obligation(prop, qualname(ff), "returns_first_matching_element", p.pc,
+                               z3.And(i >= 0, i < N, r.idt == z3.Select(IDS, i), match(i),
+                                      z3.ForAll([j], z3.Implies(z3.And(j >= 0, j < i), z3.Not(match(j))))), kind="post", where=where(ff), tag=tag))
+        else:
+            run.add(Obligation(prop, qualname(ff), "returns_element_or_None", p.pc, z3.BoolVal(False), kind="post", where=where(ff), tag=tag))
+    E.loop_specs = {}
+    # add_trx (find_trx through its contract)
+    tid = z3.Int("new.id")
+
+    def find_summary(E, func, args, kwargs):
+        self, ad, po = args[0], args[1], args[2]
+        ci = args[3] if len(args) > 3 else kwargs.get("child_idx", 0)
+        lst = self.attrs["trx_list"]
+        k = z3.Int(E.fresh("found.at"))
+        jj = z3.Int("jf")
+
+        def m(jx):
+            ix = z3.Select(lst.arr, jx)
+            return z3.And(z3.Select(ADDR, ix) == Z(ad), z3.Select(PORT, ix) == Z(po), z3.Select(IDX, ix) == Z(ci))
+        if E.branch(z3.Bool(E.fresh("found"))):
+            E.assume(z3.And(k >= 0, k < Z(lst.length), m(k)))
+            return SRef(ft.FakeTRX, z3.Select(lst.arr, k), sch)
+        E.assume(z3.ForAll([jj], z3.Implies(z3.And(jj >= 0, jj < Z(lst.length)), z3.Not(m(jj)))))
+        return None
+    E.summaries = {"transceiver.Transceiver.__str__": str_summary, "trx_list.TRXList.find_trx": find_summary}
+
+    def setup2(E):
+        lst = mk_list(E)
+        return {"self": SObj(tl.TRXList, {"trx_list": lst}), "lst": lst, "new": SRef(ft.FakeTRX, tid, sch)}
+    na, np_, nc = z3.Select(ADDR, tid), z3.Select(PORT, tid), z3.Select(IDX, tid)
+    dup = z3.Exists([j], z3.And(j >= 0, j < N, z3.Or(z3.Select(IDS, j) == tid,
+                                                      z3.And(z3.Select(ADDR, z3.Select(IDS, j)) == na, z3.Select(PORT, z3.Select(IDS, j)) == np_, z3.Select(IDX, z3.Select(IDS, j)) == nc))))
+    for p, ctx, out in run_paths(E, setup2, lambda E, ctx: E.call(fa, [ctx["self"], ctx["new"]])):
+        tag = {"what": "add_trx"}
+        run.add(*path_obligations(run, prop, fa, p, "", tag=tag))
+        lst = ctx["lst"]
+        if out[0] == "raise":
+            run.add(Obligation(prop, qualname(fa), "IndexError_iff_duplicate", p.pc, z3.And(z3.BoolVal(issubclass(out[1].cls, IndexError)), dup, Z(lst.length) == N),
+                               kind="post", case="raises", where=where(fa), tag=tag))
+            continue
+        run.add(Obligation(prop, qualname(fa), "IndexError_iff_duplicate", p.pc, z3.Not(dup), kind="post", case="returns", where=where(fa), tag=tag))
+        run.add(Obligation(prop, qualname(fa), "appended_at_the_end", p.pc, z3.And(Z(lst.length) == N + 1, z3.Select(lst.arr, N) == tid), kind="post", where=where(fa), tag=tag))
+    E.summaries = {}
+
 
 def build_pwr_lemma(run, prop):
     """PWR(t): own link listed <=> running;  generator running <=> links non-empty.  One handler step on t (contract above),
